@@ -4,6 +4,7 @@ import (
 	"errors"
 	"fmt"
 	"io"
+	"net"
 	"os"
 	"runtime"
 	"strings"
@@ -36,9 +37,10 @@ func TestC12CloseRightAfterInitialize(t *testing.T) {
 		servers := rapid.Bool().Draw(t, "tcp_and_udp_server_too")
 		consume := rapid.Bool().Draw(t, "events_consumed")
 		serialToo := rapid.IntRange(0, 2).Draw(t, "serial_endpoint_too") > 0
+		clientToo := rapid.IntRange(0, 2).Draw(t, "tcp_client_endpoint_too") > 0
 		// what the transports' Close reports (it closes in every case): nothing, EINTR, EINTR inside a PathError, another error
 		closeReports := rapid.IntRange(0, 3).Draw(t, "close_reports")
-		desc0 := fmt.Sprintf("customTransports=%d servers=%v eventsConsumed=%v serialEndpointToo=%v closeReports=%d drawn: processors=%d yields=%d", ncustom, servers, consume, serialToo, closeReports, procsDrawn, yieldsDrawn)
+		desc0 := fmt.Sprintf("customTransports=%d servers=%v eventsConsumed=%v serialEndpointToo=%v tcpClientEndpointToo=%v closeReports=%d drawn: processors=%d yields=%d", ncustom, servers, consume, serialToo, clientToo, closeReports, procsDrawn, yieldsDrawn)
 		// every case: ten rounds on one processor without a yield, ten on all processors, ten as drawn
 		for round := 0; round < 30; round++ {
 			procs, yields := procsDrawn, yieldsDrawn
@@ -82,6 +84,34 @@ func TestC12CloseRightAfterInitialize(t *testing.T) {
 				})
 				defer serialDevices.Delete(dev)
 				endpoints = append(endpoints, gomavlib.EndpointSerial{Device: dev, Baud: 57600})
+			}
+			// a TCP client endpoint towards a listener of the harness: whatever connection the node makes - also one
+			// that completes while Close is under way - has ended on the listener's side once Close is done
+			var cl net.Listener
+			var accepted []*sim.Peer
+			var accMu sync.Mutex
+			accDone := make(chan struct{})
+			if clientToo {
+				cport := sim.FreePort()
+				var lerr error
+				if cl, lerr = net.Listen("tcp4", sim.Addr(cport)); lerr != nil {
+					t.Fatalf("BROKEN: listen: %v", lerr)
+				}
+				go func() {
+					defer close(accDone)
+					for {
+						c, aerr := cl.Accept()
+						if aerr != nil {
+							return
+						}
+						accMu.Lock()
+						accepted = append(accepted, sim.WrapConn(c))
+						accMu.Unlock()
+					}
+				}()
+				endpoints = append(endpoints, gomavlib.EndpointTCPClient{Address: sim.Addr(cport)})
+			} else {
+				close(accDone)
 			}
 			var ports []int
 			if servers {
@@ -136,6 +166,25 @@ func TestC12CloseRightAfterInitialize(t *testing.T) {
 					case <-to:
 						fail("Events() was not closed within %v after Close returned", bound)
 					}
+				}
+			}
+			if clientToo {
+				time.Sleep(3 * time.Millisecond) // connections made before Close returned get accepted
+				cl.Close()
+				<-accDone
+				accMu.Lock()
+				acc := append([]*sim.Peer(nil), accepted...)
+				accMu.Unlock()
+				for k, p := range acc {
+					if !p.WaitRxEnd(2 * time.Second) {
+						for _, q := range acc {
+							q.Close()
+						}
+						fail("connection %d of %d that the node's TCP client endpoint made is still open on the listener's side 2 s after Close returned", k, len(acc))
+					}
+				}
+				for _, q := range acc {
+					q.Close()
 				}
 			}
 			if serialToo {
